@@ -75,8 +75,11 @@ func (c *ctx) walk(u *universe, o walkOpts) {
 		if u.rich {
 			tour = richTour(u, w)
 		}
-		var prevOut *vmcommon.VMOutput
-		var prevOutSnap, prevFn, prevCall string
+		type keptOut struct {
+			out            *vmcommon.VMOutput
+			snap, fn, call string
+		}
+		var kept []keptOut // the last few outputs returned (messages still held by the node until they are delivered)
 		var pending []*worldOp // deliveries of the messages emitted by tour steps
 		ti := 0
 		total := o.Ops + len(cover)
@@ -116,16 +119,23 @@ func (c *ctx) walk(u *universe, o walkOpts) {
 			}
 			// what an earlier call returned must not change when later calls run (an output that aliases a pooled or reused buffer does):
 			// the previous output is serialised again after this step and compared with what it was when it was returned
-			if prevOut != nil && (c.prop == "C10" || c.prop == "C12" || c.prop == "C13") {
-				if now := coqOutput(prevOut); now != prevOutSnap {
-					c.fail("monitor", "output-changed-by-a-later-call/"+prevFn,
-						fmt.Sprintf("the output returned by %s changed after the next call (%s) ran: it was %.300s and now reads %.300s", prevFn, op.String(), prevOutSnap, now),
-						map[string]interface{}{"earlier_call": prevCall, "later_op": op.String(), "history": histReplay(hist)})
+			// (C01 too: an emitted message is value in flight - what the destination is credited with is what the message says on arrival)
+			if c.prop == "C01" || c.prop == "C10" || c.prop == "C12" || c.prop == "C13" {
+				for ki := range kept {
+					k := &kept[ki]
+					if now := coqOutput(k.out); now != k.snap {
+						c.fail("monitor", "output-changed-by-a-later-call/"+k.fn,
+							fmt.Sprintf("the output returned by %s changed after a later call (%s) ran: it was %.300s and now reads %.300s", k.fn, op.String(), k.snap, now),
+							map[string]interface{}{"earlier_call": k.call, "later_op": op.String(), "history": histReplay(hist)})
+						k.snap = now
+					}
 				}
-			}
-			prevOut = nil
-			if !sr.Skipped && sr.Res != nil && sr.Res.Status == 0 && sr.Res.Out != nil {
-				prevOut, prevOutSnap, prevFn, prevCall = sr.Res.Out, coqOutput(sr.Res.Out), sr.Call.Fn, describeCall(sr.Call)
+				if !sr.Skipped && sr.Res != nil && sr.Res.Status == 0 && sr.Res.Out != nil {
+					kept = append(kept, keptOut{sr.Res.Out, coqOutput(sr.Res.Out), sr.Call.Fn, describeCall(sr.Call)})
+					if len(kept) > 4 {
+						kept = kept[1:]
+					}
+				}
 			}
 			hist = append(hist, op.String())
 			if hrec != nil {
